@@ -20,11 +20,9 @@ echo "== suite WITH patch (demo moved aside)"
 mkdir -p /tmp/seed/$ID.aside; for f in $DEMOS; do mv $f /tmp/seed/$ID.aside/$(echo $f | tr / _); done
 /verif/scripts/runsuite.sh $WT
 for f in $DEMOS; do mv /tmp/seed/$ID.aside/$(echo $f | tr / _) $f; done
-echo "== checks against /repo with patch"
-cd /repo && git apply $PATCH || { echo "does not apply to /repo"; exit 2; }
-for p in $(/verif/bin/thunderlint list); do
-  out=$(/verif/bin/thunderlint check -prop $p -repo /repo -verif /verif -no-evidence 2>&1); rc=$?
-  if [ $rc -ne 0 ]; then echo "--- $p rc=$rc"; echo "$out" | grep -E "^(  rule=|ERROR)" | cut -c1-400; fi
-done
-git -C /repo checkout -q -- .
+echo "== checks against the worktree (patch applied; /repo is not touched)"
+cd $WT
+out=$(/verif/bin/thunderlint check -prop all -repo $WT -verif /verif -no-evidence 2>&1)
+echo "$out" | grep -E "^(  rule=|ERROR|VIOLATION)" | cut -c1-400
+echo "$out" | grep -E "^property=" | grep -v "violations=0 undecided=0"
 echo "== done"
